@@ -111,8 +111,11 @@ fn new_tx_data(tx: &elements::Transaction, in_utxos: &[ElementsUtxo]) -> RawTran
     for (inp, in_utxo) in tx.input.iter().zip(in_utxos.iter()) {
         let inp_data = RawInputData {
             annex: get_annex(&inp.witness).map(|s| s.to_vec()),
+            // An input is a peg-in exactly when its outpoint carries the peg-in flag; the
+            // peg-in witness only supplies the data for such an input.
             genesis_hash: inp
                 .pegin_data()
+                .filter(|_| inp.is_pegin)
                 .map(|x| x.genesis_hash.to_raw_hash().to_byte_array()),
             issuance_amount: serialize(&inp.asset_issuance.amount),
             issuance_inflation_keys: serialize(&inp.asset_issuance.inflation_keys),
